@@ -124,7 +124,7 @@ def lean_check(prop_id, module, theorems, regen=None, clean=False):
         r.failed.append(('lake build driver', _first_error(out)))
     mods = [module]
     for th in theorems:
-        mm = re.match(r'WV\.(C\d+)\.', th)
+        mm = re.match(r'WV\.(C\d+[A-Za-z]?)\.', th)
         if mm and ('WaveletsVerif.Properties.' + mm.group(1)) not in mods:
             mods.append('WaveletsVerif.Properties.' + mm.group(1))
     rc, out = _lake(['build'] + mods)
